@@ -12,9 +12,9 @@ DRIVER_PKG = "cmd/verif_c15"
 SHARD = 60
 
 VARIANTS = [
-    {"name": "current(unchecked assertions, one-token unknown keys, lenient structure)", "findings": ["F15a", "F15b", "F15c"]},
-    {"name": "types-checked", "findings": ["F15b", "F15c"]},
-    {"name": "types-checked+unknown-skipped", "findings": ["F15c"]},
+    {"name": "current(unchecked assertions, one-token unknown keys, lenient structure)", "findings": ["F15a", "F15b", "F15c", "F15d"]},
+    {"name": "types-checked", "findings": ["F15b", "F15c", "F15d"]},
+    {"name": "types-checked+unknown-skipped", "findings": ["F15c", "F15d"]},
     {"name": "fixed(strict)", "findings": []},
 ]
 RULE = ("cases = byte strings: (a) generated UDA collections (context with default '_' prefix, CURIE / absolute-URI ids, all JSON "
@@ -167,6 +167,12 @@ def R(x):
 
 EXPANSIONS = ["http://ex.org/a/", "http://ex.org/b#", "https://s.io/x/", "http://data.mimiro.io/core/", "http://ex.org/deep/er/"]
 PREFIXES = ["a", "b", "s", "core", "p5"]
+# the driver's stores know EXPANSIONS[i] as "ns%d" % (3 + i) (ns0..ns2 are the hub's own); a payload from another hub
+# uses the same prefix NAMES with other expansions
+RECEIVER = {"ns%d" % (3 + i): e for i, e in enumerate(EXPANSIONS)}
+# adversarial prefix names: begin with http/https, collide with the receiver's numbering, equal to key names
+ADV_PREFIXES = ["httpbin", "https-api", "http", "https", "httpx", "ns3", "ns4", "ns5", "ns1", "name", "id", "props", "token", "n"]
+ADV_LOCALS = ["item1", "reports/2024", "x#y", "//h/p", "knows", "name", "n"]
 WORDS = ["n", "name", "k1", "x-y", "Z_9", "p.q", "a:b", "té", "日", "w w", "q\"q", "sl/ash", "ha#sh", "1", "id", "props", "token"]
 STRS = ["", "x", "hello world", "a:b", "http://ex.org/a/v", "tab\there", "nl\nline", "q\"uote", "back\\slash", "æøå", "☃",
         "<tag>&", "@continuation", "@context", "null", "123", "\u0001ctl", "\U0001F600"]
@@ -174,9 +180,10 @@ NUMS = ["0", "1", "-1", "42", "3.5", "-0.25", "1e3", "1E-2", "123456789", "90071
 
 
 class Gen:
-    def __init__(self, rng):
+    def __init__(self, rng, adv=False):
         self.rng = rng
         self.idn = 0
+        self.adv = adv
 
     def context(self):
         r = self.rng
@@ -186,6 +193,11 @@ class Gen:
         k = r.range(1, 4)
         for i in range(k):
             ns.append((PREFIXES[i], EXPANSIONS[(i + r.below(2)) % len(EXPANSIONS)]))
+        if self.adv:
+            pool = list(ADV_PREFIXES)
+            r.shuffle(pool)
+            for p in pool[:r.range(1, 4)]:
+                ns.append((p, r.choice(EXPANSIONS)))
         self.ns = ns
         keys = [("id", R("@context")), ("namespaces", ("o", [(p, R(e)) for p, e in ns]))]
         if r.chance(1, 6):
@@ -201,6 +213,8 @@ class Gen:
             self.idn += 1
             w = "e%d" % self.idn
         form = r.below(10)
+        if self.adv and not fresh and r.chance(1, 2):
+            w = r.choice(ADV_LOCALS)
         if form < 5:
             p = r.choice([p for p, _ in self.ns if p != "_"] or ["a"])
             return p + ":" + w
@@ -287,6 +301,67 @@ class Gen:
         for i in range(r.below(4)):
             keys.append((r.choice(["d1", "d2", "people", "d1"]), ("a", [self.entity(fresh=True) for _ in range(r.below(4))])))
         return ("o", keys)
+
+
+def foreign_collection(rng, fresh=False):
+    """a payload written by another hub: its context binds the receiver's own prefix names ns3.. to OTHER expansions;
+    few distinct local names, so the same textual key is used as ref key and property key, within one entity and across
+    the entities of the request, and keys textually equal to the receiver's global names occur"""
+    names = ["ns3", "ns4", "ns5"][:rng.range(2, 3)]
+    exps = [RECEIVER[n] for n in names]
+    perm = list(exps)
+    while perm == exps:
+        rng.shuffle(perm)
+    ns = list(zip(names, perm))
+    if rng.chance(1, 2):
+        ns.append(("_", rng.choice(EXPANSIONS)))
+    ctx = ("o", [("id", R("@context")), ("namespaces", ("o", [(p, R(e)) for p, e in ns]))])
+    words = ["knows", "name"]
+    key = lambda: rng.choice(names) + ":" + rng.choice(words)
+    els = [ctx]
+    for i in range(rng.range(2, 4)):
+        keys = [("id", R(rng.choice(names) + ":f%d" % i))]
+        rs = []
+        for _ in range(rng.range(1, 3)):
+            k = key()
+            if all(k != k2 for k2, _ in rs):
+                rs.append((k, R(key()) if rng.chance(2, 3) else ("a", [R(key()) for _ in range(rng.below(3))])))
+        ps = []
+        for _ in range(rng.range(1, 3)):
+            k = key()
+            if all(k != k2 for k2, _ in ps):
+                ps.append((k, R(rng.choice(["v", 1, True])) if rng.chance(3, 4) else
+                           ("o", [("id", R(key())), ("refs", ("o", [(key(), R(key()))])), ("props", ("o", [(key(), R("w"))]))])))
+        parts = [("refs", ("o", rs)), ("props", ("o", ps))]
+        if rng.chance(1, 3):
+            parts.reverse()
+        keys += parts
+        els.append(("o", keys))
+    return ("a", els)
+
+
+def cont_order_collection(rng, g):
+    """continuation elements (top level and nested) placed BEFORE other entities, among them entities that carry a
+    top-level "token" key"""
+    ctx = g.context()
+    els = [ctx]
+    for i in range(rng.range(2, 5)):
+        k = rng.below(5)
+        if k == 0:
+            els.append(g.continuation())
+        elif k == 1:   # continuation nested in a property value (with or without token)
+            inner = [("id", R("@continuation"))] + ([("token", R("t"))] if rng.chance(1, 2) else [])
+            els.append(("o", [("id", R(g.ident(True))), ("props", ("o", [(g.ident(), ("o", inner))]))]))
+        elif k == 2:   # ordinary entity with a top-level "token" key, before or after its props
+            parts = [("id", R(g.ident(True))), ("props", ("o", [(g.ident(), R("keep"))])), ("token", R(rng.choice(["x", 1, None])))]
+            if rng.chance(1, 2):
+                parts[1], parts[2] = parts[2], parts[1]
+            els.append(("o", parts))
+        elif k == 3:   # id switched away from @continuation, then token
+            els.append(("o", [("id", R("@continuation")), ("id", R(g.ident(True))), ("token", R("y"))]))
+        else:
+            els.append(g.entity(fresh=True))
+    return ("a", els)
 
 
 BAD_VALUES = ["5", "\"s\"", "true", "false", "null", "[]", "{}", "[1,2]", "{\"a\":1}", "[\"id\",\"a:zz\"]", "{\"id\":\"a:inner\"}",
@@ -423,8 +498,22 @@ def witness_cases():
         mk("http", "[" + CTX + ',{"id":"a:1","deleted":"false"}]', "w-F15a-http", get="changes"),
         mk("http", "[" + CTX + "," + ",".join('{"id":"a:g%d"}' % i for i in range(9))
            + ',{"id":"a:bad","foo":{"id":"a:inner"},"props":{}}]', "w-F15b-http-stored", get="changes"),
+        mk("http", "[" + CTX + ',{"id":"a:1"},{"id":"@continuation","token":"x"}]', "w-F15d-http", get="changes"),
+        mk("http", "[" + CTX + ',{"id":"a:1"},{"id":"@continuation","token":"x"}]', "w-F15d-http-entities", get="entities"),
         mk("http", "[" + CTX + ',{"id":"a:1","props":{"a:n":"x","k":[1,true,{"id":"z"}],"nul":null},"refs":{"a:r":"a:2"}},'
            '{"id":"a:2","deleted":true}]', "w-ok-http", get="changes"),
+        # what a payload denotes under ITS context: prefixes that merely begin with http, a foreign hub's nsN numbering
+        # (receiver: ns3 = http://ex.org/a/, ns4 = http://ex.org/b#), the same text as ref key and as property key
+        mk("stream", '[{"id":"@context","namespaces":{"httpbin":"http://ex.org/a/","https-api":"http://ex.org/b#","http":"https://s.io/x/"}},'
+           '{"id":"httpbin:item1","props":{"https-api:reports/2024":1,"http:p":2},"refs":{"httpbin:r":"https-api:x/y","http:q":["httpbin:z"]}}]', "w-denote-http-prefix"),
+        mk("stream", '[{"id":"@context","namespaces":{"ns3":"http://ex.org/b#","ns4":"http://ex.org/a/"}},'
+           '{"id":"ns3:e1","refs":{"ns4:knows":"ns3:e2"}},{"id":"ns3:e2","props":{"ns3:knows":"x","ns3:name":"y"},"refs":{"ns3:knows":"ns4:e1"}}]', "w-denote-foreign-hub"),
+        mk("http", '[{"id":"@context","namespaces":{"ns3":"http://ex.org/b#","ns4":"http://ex.org/a/"}},'
+           '{"id":"ns3:e1","refs":{"ns4:knows":"ns3:e2"}},{"id":"ns3:e2","props":{"ns3:knows":"x","ns3:name":"y"}}]', "w-denote-foreign-hub-http", get="changes"),
+        # a continuation element (top level / nested) BEFORE an ordinary entity that carries a "token" key
+        S('{"id":"@continuation","token":"t"},{"id":"a:1","props":{"a:p":1},"token":"x"}', "w-cont-then-token"),
+        S('{"id":"a:0","props":{"a:p":{"id":"@continuation","token":"t"}}},{"id":"a:1","props":{"a:p":1},"token":"x"}', "w-nested-cont-then-token"),
+        S('{"id":"a:1","props":{"a:p":1},"token":"x"},{"id":"@continuation","token":"t"}', "w-token-then-cont"),
         # fine
         S('{"id":"a:1","props":{"a:n":"x","k":[1,true,{"id":"z"}],"nul":null},"refs":{"a:r":"a:2","rr":["http://o/x#y","b"]},'
           '"deleted":true,"recorded":12}, {"id":"@continuation","token":"abc"}', "w-ok"),
@@ -439,10 +528,10 @@ def corpus_cases():
 
 def gen(rng, tier):
     out = []
-    n_valid, n_mut, n_text, n_rand, n_txn, n_http = {
-        "quick": (60, 110, 60, 60, 60, 36),
-        "search": (40, 200, 100, 60, 80, 30),
-        "thorough": (500, 1500, 800, 800, 600, 200),
+    n_valid, n_mut, n_text, n_rand, n_txn, n_http, n_adv = {
+        "quick": (50, 100, 50, 50, 50, 32, 40),
+        "search": (40, 200, 100, 60, 80, 30, 80),
+        "thorough": (500, 1500, 800, 800, 600, 200, 400),
     }[tier]
     g = Gen(rng)
     for _ in range(n_valid):
@@ -458,6 +547,23 @@ def gen(rng, tier):
         out.append(mk("stream", s, "mut-text"))
     for _ in range(n_rand):
         out.append(mk("stream" if rng.chance(3, 4) else "txn", random_bytes(rng), "random"))
+    ga = Gen(rng, adv=True)
+    for i in range(n_adv):
+        t = ga.collection(n=rng.range(1, 3))
+        if i % 4 == 3:
+            mutate_tree(rng, t)
+        out.append(mk("stream", jtext(t), "advctx" if i % 4 != 3 else "advctx-mut"))
+    for i in range(n_adv):
+        t = foreign_collection(rng)
+        if i % 5 == 0:
+            out.append(mk("http", jtext(t), "foreign-http", get="changes"))
+        elif i % 5 == 1:
+            out.append(mk("txn", '{"@context":' + jtext(t[1][0]) + ',"d1":' + jtext(("a", t[1][1:])) + "}", "foreign-txn"))
+        else:
+            out.append(mk("stream", jtext(t), "foreign"))
+    for i in range(n_adv):
+        t = cont_order_collection(rng, ga if i % 2 else g)
+        out.append(mk("stream" if i % 4 else "http", jtext(t), "cont-order", get="changes"))
     for i in range(n_txn):
         t = g.txn()
         kind = "txn-valid"
@@ -495,6 +601,8 @@ def attribute(c, o):
         return "F15b"
     if "F15c" in k:
         return "F15c"
+    if "F15d" in k:
+        return "F15d"
     return None
 
 
